@@ -58,7 +58,10 @@ def build(v, memo):
             return memo[v['__ref__']]
         if '__obj__' in v:
             cls = find_class(v['__obj__'])
-            o = object.__new__(cls) if isinstance(cls, type) else NS()
+            try:
+                o = object.__new__(cls) if isinstance(cls, type) and not issubclass(cls, tuple) else NS()
+            except TypeError:
+                o = NS()
             memo[v['__id__']] = o
             for k, x in v['fields'].items():
                 val = build(x, memo)
@@ -210,6 +213,13 @@ def run_once(info, inputs):
     qual = info['function']
     parts = qual.split('.')
     fn = None
+    if info.get('harness'):
+        modname = info['module']
+        g = dict(importlib.import_module(modname).__dict__)
+        exec(compile(info['harness'], '<harness>', 'exec'), g)
+        names = [n.name for n in ast.parse(info['harness']).body if isinstance(n, ast.FunctionDef)]
+        fn = g[names[-1]]
+        parts = []
     for k in range(len(parts) - 1, 0, -1):
         try:
             mod = importlib.import_module('.'.join(parts[:k]))
